@@ -144,7 +144,8 @@ def site_types(d):
     out = {}
     for n in d['nodes']:
         t = n[1] if n[1] in ('ROADM', 'ILA', 'FUSED') else 'ILA'
-        if t == 'ILA' and len(nb[n[0]]) != 2:
+        if t in ('ILA', 'FUSED') and len(nb[n[0]]) != 2:
+            # a line site (amplifier or splice) has exactly two neighbours: with another degree the site can only be a ROADM
             t = 'ROADM'
         out[n[0]] = t
     return out
@@ -517,6 +518,8 @@ TOPOS = {
              [('H', 'L1'), ('L2', 'H'), ('H', 'L3')]),
     'bad_ila': ([('A', 'ROADM', 0, 0), ('B', 'ROADM', 0, 2), ('C', 'ROADM', 2, 1), ('X', 'ILA', 1, 1)],
                 [('A', 'X'), ('X', 'B'), ('C', 'X')]),
+    'bad_fused': ([('A', 'ROADM', 0, 0), ('B', 'ROADM', 0, 2), ('C', 'ROADM', 2, 1), ('X', 'FUSED', 1, 1), ('Y', 'FUSED', 3, 3)],
+                  [('A', 'X'), ('X', 'B'), ('C', 'X'), ('C', 'Y')]),
     'chain': ([('A', 'ROADM', 0, 0), ('i1', 'ILA', 0, 1), ('i2', None, 0, 2), ('f1', 'FUSED', 0, 3), ('i3', 'ILA', 0, 4),
                ('B', 'ROADM', 0, 5), ('C', 'ROADM', 1, 5)],
               [('A', 'i1'), ('i2', 'i1'), ('i2', 'f1'), ('f1', 'i3'), ('B', 'i3'), ('B', 'C'), ('C', 'A')]),
@@ -642,6 +645,7 @@ SERVICES = {
     ],
 }
 SERVICES['line_rev'] = SERVICES['line']
+SERVICES['bad_fused'] = SERVICES['bad_ila']
 # route lists naming a site that the topology conversion re-typed from ILA / blank to ROADM (its degree is not 2)
 RETYPED = {
     'star': [
